@@ -203,7 +203,20 @@ Definition rechunker_run (fs : fsys) (src dst tmp : Z) (replace : bool) (comp tg
   | None => ([], Err E_NOT_AVAILABLE)
   | Some s =>
       let md := opt_set_target (opt_set_comp s comp) tgt in
-      let '(tr, r) := run_saver fs dst tmp md (transfer s tgt None rechunk) in
+      (* backend.loader is a generator: it reads the source's metadata at its first next(), i.e. after
+         FileSaver.__init__ has removed whatever sat at dst / tmp and created the temp directory.
+         _get_metadata falls back to <dir>_temp, which is tmp exactly when src = dst (no unrelated
+         <src>_temp directory is assumed to exist otherwise). *)
+      let fs_init := put tmp (open_md md []) (remove tmp (remove dst fs)) in
+      let src_now := match lookup src fs_init with
+                     | Some s1 => Some s1
+                     | None => if src =? dst then lookup tmp fs_init else None
+                     end in
+      let data := match src_now with
+                  | Some s1 => transfer s1 tgt None rechunk
+                  | None => Err E_NOT_AVAILABLE
+                  end in
+      let '(tr, r) := run_saver fs dst tmp md data in
       match r with
       | Ok _ =>
           if replace then
